@@ -6,6 +6,7 @@ package state
 
 //@ func (*State).SetHeightAndResetView
 //@   props C13
+//@   modifies state.State.height, state.State.view
 //@   ensures [ok] result1 == nil ==> s.height == newHeight && newHeight > old(s.height) && s.view == 0
 //@   ensures [fail] result1 != nil ==> s.height == old(s.height) && s.view == old(s.view) && newHeight <= old(s.height)
 //@   ensures [ret.ok] result1 == nil ==> result0 != nil && result0.height == newHeight && result0.view == 0
@@ -15,6 +16,7 @@ package state
 
 //@ func (*State).SetView
 //@   props C13
+//@   modifies state.State.view
 //@   ensures [ok] result1 == nil ==> s.view == newView && newView >= old(s.view) && s.height == old(s.height)
 //@   ensures [fail] result1 != nil ==> s.height == old(s.height) && s.view == old(s.view) && old(s.view) > newView
 //@   ensures [ret.ok] result1 == nil ==> result0 != nil && result0.height == old(s.height) && result0.view == newView
@@ -47,6 +49,7 @@ package state
 
 //@ func (*ViewContexts).For
 //@   props C15
+//@   modifies M:S_state_HeightView:Int
 //@   requires hv != nil && w.parentCtxWithCancel != nil && w.hvToContext != nil
 //@   requires forall k HeightView :: has(w.hvToContext, k) && w.newestHvCanceledOlder != nil ==> !(k.height < w.newestHvCanceledOlder.height || (k.height == w.newestHvCanceledOlder.height && k.view < w.newestHvCanceledOlder.view))
 //@   ensures [inv.no-context-below-watermark] forall k HeightView :: has(w.hvToContext, k) && w.newestHvCanceledOlder != nil ==> !(k.height < w.newestHvCanceledOlder.height || (k.height == w.newestHvCanceledOlder.height && k.view < w.newestHvCanceledOlder.view))
@@ -61,6 +64,7 @@ package state
 
 //@ func (*ViewContexts).CancelOlderThan
 //@   props C15
+//@   modifies M:S_state_HeightView:Int, state.ViewContexts.newestHvCanceledOlder, ghost:cancelled
 //@   requires hv != nil && w.hvToContext != nil
 //@   requires forall k HeightView :: has(w.hvToContext, k) ==> w.hvToContext[k] != nil
 //@   requires forall k HeightView :: has(w.hvToContext, k) && w.newestHvCanceledOlder != nil ==> !(k.height < w.newestHvCanceledOlder.height || (k.height == w.newestHvCanceledOlder.height && k.view < w.newestHvCanceledOlder.view))
@@ -82,6 +86,7 @@ package state
 
 //@ func (*ViewContexts).Shutdown
 //@   props C15 C16
+//@   modifies state.ViewContexts.shutdown, ghost:cancelled
 //@   requires w.parentCtxWithCancel != nil
 //@   ensures [down] w.shutdown
 //@   ensures [parent-cancelled] cancelled[w.parentCtxWithCancel.cancel]
